@@ -55,6 +55,8 @@ def run(tier, seed):
         chk.violation("broken-obligation", "pause-table-translator", dict(error=msg), no_input=True)
     gate = vlib.coq_gate(PROP, extra_targets=["Model/UnitEnv.vo", "gen/GenPauseTable.vo"])
     vlib.gate_or_violation(chk, gate)
+    if ok:
+        gate = U.merge_gates(gate, U.life_gate(chk))
     try:
         rig = e2e.Rig()
     except RuntimeError as ex:
@@ -62,12 +64,19 @@ def run(tier, seed):
         return chk.finish(gate, "make -C coq Properties/C11.vo", [])
     r = vlib.rng_for(seed, PROP)
     scs = gen(r, 80 if tier == "thorough" else 20)
-    U.check_family(chk, rig, scs, U.oracle_C11, "c11")
+    life_scs = []
+    if U.check_family(chk, rig, scs, U.oracle_C11, "c11"):
+        # the whole life of a unit: shutdown signals landing in the retry delay, or consumed by an attempt that
+        # then fails with retries left (no further attempt; nextest exits without sitting out the delay)
+        def shutdown_mid_attempt(r):
+            return [s for s in U.life_cancel(r) if s["family"].startswith("shutdown")]
+        life_scs = U.life_stage(chk, rig, [U.life_shutdown_in_delay, shutdown_mid_attempt], "c11l",
+                                vlib.rng_for(seed, PROP + ":life"), tier == "thorough")
     for sc in scs[:3]:
         chk.sample(sc)
     distinct = len({json.dumps([s["grace"], s["on_term"], s["sigs"], s.get("ta")]) for s in scs})
     chk.assumptions = ["kernel signal delivery; a process that leaves its process group is out of scope",
-                       "retry-delay, leak-drain and setup-script phases are not yet exercised end to end",
+                       "retry-delay phase: exercised by the whole-life stage (Model/UnitLife.v, Model/UnitLifeEnv.v)",
                        "timing tolerance 0.45 time units; time-dependent failures must reproduce with the unit doubled"]
     return chk.finish(gate, "make -C coq Properties/C11.vo + Print Assumptions",
                       ["Coq 8.16.1 kernel + vm_compute", "Model/UnitTimers.v, Model/UnitEnv.v (hand-written), "
